@@ -1584,3 +1584,70 @@ def guard_atoms(guards):
         else:
             out.add((src(t).replace(" ", ""), pol))
     return out
+
+
+def unroll_literal_loops(fn, limit=8):
+    """in place: a for loop over a literal tuple / list of constants (also through enumerate(<literal>[, start]) and zip of two
+    literals) with at most `limit` items, no break / continue / else, whose loop variables are not assigned in the body, reads as
+    the copies of its body with the variables replaced by the constants - 'for i, name in enumerate(('t_x','t_y','t_z')):
+    g.translation[i] = pars[name]' is the three stores it stands for.  Returns fn."""
+    def items(it):
+        def lit(e):
+            return list(e.elts) if isinstance(e, (ast.Tuple, ast.List)) and all(isinstance(x, ast.Constant) for x in e.elts) else None
+        if lit(it) is not None:
+            return [[x] for x in lit(it)]
+        if isinstance(it, ast.Call) and dotted(it.func) == "enumerate" and it.args and lit(it.args[0]) is not None:
+            start = 0
+            if len(it.args) == 2:
+                start = const_int(it.args[1])
+            for kw in it.keywords:
+                if kw.arg == "start":
+                    start = const_int(kw.value)
+            if start is None:
+                return None
+            return [[ast.Constant(value=start + k_), x] for k_, x in enumerate(lit(it.args[0]))]
+        if isinstance(it, ast.Call) and dotted(it.func) == "zip" and len(it.args) == 2 and all(lit(a_) is not None for a_ in it.args) \
+                and len(lit(it.args[0])) == len(lit(it.args[1])):
+            return [[a_, b_] for a_, b_ in zip(lit(it.args[0]), lit(it.args[1]))]
+        return None
+
+    def expand(st):
+        if not isinstance(st, ast.For) or st.orelse:
+            return None
+        rows = items(st.iter)
+        if rows is None or not (1 <= len(rows) <= limit):
+            return None
+        tg = list(st.target.elts) if isinstance(st.target, (ast.Tuple, ast.List)) else [st.target]
+        if not all(isinstance(t_, ast.Name) for t_ in tg) or len(tg) != len(rows[0]):
+            return None
+        names = [t_.id for t_ in tg]
+        for x in ast.walk(ast.Module(body=st.body, type_ignores=[])):
+            if isinstance(x, (ast.Break, ast.Continue)):
+                return None
+            if isinstance(x, ast.Name) and isinstance(x.ctx, (ast.Store, ast.Del)) and x.id in names:
+                return None
+        out = []
+        for row in rows:
+            mp = dict(zip(names, row))
+            for b_ in st.body:
+                nb = _Subst(mp).visit(clone(b_))
+                ast.copy_location(nb, b_)
+                out.append(ast.fix_missing_locations(nb))
+        return out
+    changed = True
+    while changed:
+        changed = False
+        for n_ in ast.walk(fn):
+            for fld in ("body", "orelse", "finalbody"):
+                blk = getattr(n_, fld, None)
+                if isinstance(blk, list):
+                    for k_, st in enumerate(blk):
+                        r_ = expand(st)
+                        if r_ is not None:
+                            blk[k_:k_ + 1] = r_
+                            changed = True
+                            break
+    for n_ in ast.walk(fn):
+        for c in ast.iter_child_nodes(n_):
+            c._parent = n_
+    return fn
